@@ -154,6 +154,8 @@ func runC04(c *Ctx) {
 	c.rule("N6", "in the removal call graph, operations that act through symbolic links (chown, chmod, chtimes) are applied only to paths found not to be links", 1)
 	c.rule("N3", "removal primitives in the removal call graph are afero.Fs.Remove and the privileged fallback only (no RemoveAll)", 2)
 
+	c.rule("N8", "in the removal call graph, an error assigned to a variable is read before the variable is overwritten or the function returns: a failed step (cleaning, listing, removing) cannot be covered by the result of the next one", 40)
+
 	c.patternLoopsComplete("N4")
 
 	var roots []*ssa.Function
@@ -173,6 +175,9 @@ func runC04(c *Ctx) {
 	c.Extra["removal_call_graph"] = len(fns)
 
 	c.c04LinkTestOnCleanPath(fns)
+	for _, f := range fns {
+		c.errOverwrittenRule("N8", f)
+	}
 
 	// functions whose own path parameter is only listed (obligation on callers)
 	isLister := func(f *ssa.Function) bool { return c04Descents[outermost(f).Name()] }
